@@ -1403,6 +1403,12 @@ func r12HandedBackReset(c *RuleCtx) {
 						return true
 					}
 				}
+				// a memo hit: the object is handed back as it is because it was found to hold exactly what
+				// is asked for — same position AND same source (a position alone means nothing in
+				// another segment)
+				if memoHitAt(at, cd.prm) {
+					return true
+				}
 				return false
 			case *ssa.Phi:
 				if seen[v] {
@@ -1536,4 +1542,92 @@ func r12OnlyFedBack(p *Program, fn *ssa.Function, prm *ssa.Parameter, res int) b
 		}
 	}
 	return true
+}
+
+// memoHitAt: block b is reached only over true edges of comparisons (inline, or inside a predicate method
+// called on obj) that equate a scalar field of obj with something AND a pointer field of obj with
+// something: the object was decoded from that very position of that very source.
+func memoHitAt(b *ssa.BasicBlock, obj ssa.Value) bool {
+	scalar, ptr := false, false
+	note := func(cmp *ssa.BinOp, o ssa.Value) {
+		for _, side := range []ssa.Value{cmp.X, cmp.Y} {
+			if _, _, base, ok := loadedField(side); ok && root(base) == o {
+				switch side.Type().Underlying().(type) {
+				case *types.Basic:
+					scalar = true
+				case *types.Pointer:
+					ptr = true
+				}
+			}
+		}
+	}
+	var collect func(b *ssa.BasicBlock, o ssa.Value, depth int)
+	collect = func(b *ssa.BasicBlock, o ssa.Value, depth int) {
+		for cur := b; cur != nil; cur = cur.Idom() {
+			pb := cur.Idom()
+			if pb == nil {
+				break
+			}
+			if len(cur.Preds) != 1 || cur.Preds[0] != pb {
+				continue
+			}
+			iff, ok := pb.Instrs[len(pb.Instrs)-1].(*ssa.If)
+			if !ok {
+				continue
+			}
+			onTrue := pb.Succs[0] == cur
+			switch x := iff.Cond.(type) {
+			case *ssa.BinOp:
+				if (x.Op == token.EQL && onTrue) || (x.Op == token.NEQ && !onTrue) {
+					note(x, o)
+				}
+			case *ssa.Call:
+				// a predicate method on the object
+				if !onTrue || depth > 0 || len(x.Call.Args) == 0 || root(x.Call.Args[0]) != o {
+					continue
+				}
+				f := x.Call.StaticCallee()
+				if f == nil || len(f.Blocks) == 0 || f.Signature.Recv() == nil || f.Signature.Results().Len() != 1 {
+					continue
+				}
+				recv := ssa.Value(f.Params[0])
+				// every way of answering true
+				first := true
+				s0, p0 := scalar, ptr
+				accS, accP := true, true
+				for _, ret := range returnsOf(f) {
+					type src struct {
+						blk *ssa.BasicBlock
+						val ssa.Value
+					}
+					var srcs []src
+					if ph, ok := ret.Results[0].(*ssa.Phi); ok {
+						for i, e := range ph.Edges {
+							srcs = append(srcs, src{ph.Block().Preds[i], e})
+						}
+					} else {
+						srcs = append(srcs, src{ret.Block(), ret.Results[0]})
+					}
+					for _, sx := range srcs {
+						if k, ok := constBool(sx.val); ok && !k {
+							continue
+						}
+						scalar, ptr = false, false
+						collect(sx.blk, recv, depth+1)
+						if cmp, ok := sx.val.(*ssa.BinOp); ok && cmp.Op == token.EQL {
+							note(cmp, recv)
+						}
+						accS, accP = accS && scalar, accP && ptr
+						first = false
+					}
+				}
+				scalar, ptr = s0, p0
+				if !first {
+					scalar, ptr = scalar || accS, ptr || accP
+				}
+			}
+		}
+	}
+	collect(b, root(obj), 0)
+	return scalar && ptr
 }
